@@ -7,10 +7,7 @@ from ..core import AnalysisError, norm, walk_no_nested, flat
 
 META = {
     'design_ref': 'DESIGN.md §3 C17',
-    'technique': 'composition of the per-line encoder and decoder as string functions by path enumeration over an abstract string value '
-                 '(literal prefix + input line + literal suffix) with regular constraints on the input line (predicate languages and '
-                 'quotients on automata): decode(encode(x)) is the identity on the property\'s line domain; regular-language agreement '
-                 'between the writer-side validator and the reader-side splitter of the list converters; AST pairing/wiring rules',
+    'technique': "abstract interpretation on symbolic strings with automatic case refinement: decode(encode(lines)) on lists of symbolic lines of the property's domain, License converters, the two list converters on symbolic items (accepted items must read back, refused ones raise the format error); regular-language inclusion between the writer-side validator and str.split(); property accessors and document construction/dump/insertion interpreted on stubs",
     'level_text': 'Static decision: for every line of the stated domain the decoder applied to the encoder\'s output returns the line '
                   '(first line and continuation lines separately), the decoder rejects a continuation without the prefix with the format '
                   'error; a value accepted by the space-separated writer is never split by the reader; every restricted field uses the '
